@@ -75,7 +75,8 @@ Alphabet ==
            Ph("beginR", <<Wd("begin")>>), Ph("repeat", <<Wd("repeat")>>),
            Ph("do", <<L(3), L(0), Wd("do")>>), Ph("loop", <<Wd("loop")>>),
            Ph("def", <<Wd(":"), Wd("f")>>), Ph("enddef", <<Wd(";")>>), Ph("call", <<Wd("f")>>),
-           Ph("var", <<Wd("var"), Wd("v")>>), Ph("var", <<Wd("var"), Wd("u")>>), Ph("vref", <<Wd("v")>>) >>
+           Ph("var", <<Wd("var"), Wd("v")>>), Ph("var", <<Wd("var"), Wd("u")>>), Ph("vref", <<Wd("v")>>),
+           Ph("meta", <<Wd("#(")>>), Ph("endmeta", <<Wd("#)")>>) >>
     [] Frag = "blame" ->
         << Plain(<<L(1)>>), Plain(<<L(0)>>), Plain(<<Wd("drop")>>), Plain(<<Wd("+")>>), Plain(<<Wd("/")>>), Plain(<<Wd("foo")>>), Plain(<<Wd("I")>>),
            Ph("if", <<Wd("true"), Wd("if")>>), Ph("if", <<Wd("if")>>), Ph("else", <<Wd("else")>>), Ph("then", <<Wd("then")>>),
@@ -83,6 +84,9 @@ Alphabet ==
            Ph("def", <<Wd(":"), Wd("f")>>), Ph("enddef", <<Wd(";")>>), Ph("call", <<Wd("f")>>),
            Ph("beginU", <<Wd("begin")>>), Ph("until", <<Wd("until")>>),
            Ph("local", <<Wd("local"), Wd("x")>>), Ph("lref", <<Wd("x")>>) >>
+    [] Frag = "metalim" ->      \* growth inside meta blocks (the hidden outer stack counts towards the stack limit)
+        << Plain(<<L(1)>>), Plain(<<Wd("dup")>>), Plain(<<Wd("drop")>>), Plain(<<Wd("+")>>),
+           Ph("meta", <<Wd("#(")>>), Ph("endmeta", <<Wd("#)")>>), Ph("vec", <<Wd("[")>>), Ph("endvec", <<Wd("]")>>) >>
     [] Frag = "mix" ->
         << Plain(<<L(1)>>), Plain(<<L(0)>>), Plain(<<Wd("dup")>>), Plain(<<Wd("+")>>), Plain(<<Wd("I")>>), Plain(<<Wd("print")>>),
            Ph("vec", <<Wd("[")>>), Ph("endvec", <<Wd("]")>>), Plain(<<Wd("depth")>>), Plain(<<Wd("length")>>),
@@ -127,6 +131,8 @@ Allowed(ph) ==
     [] ph.rule = "loop"    -> open # <<>> /\ Top = "do"
     [] ph.rule = "def"     -> TRUE
     [] ph.rule = "vec"     -> TRUE
+    [] ph.rule = "meta"    -> ~Has("meta")
+    [] ph.rule = "endmeta" -> open # <<>> /\ Top = "meta"
     [] ph.rule = "endvec"  -> open # <<>> /\ Top = "vec"
     [] ph.rule = "enddef"  -> open # <<>> /\ Top = "def"
     [] ph.rule = "call"    -> ph.toks[1].s \in Names(":")
@@ -137,11 +143,11 @@ Allowed(ph) ==
     [] ph.rule = "vref"    -> ph.toks[1].s \in Names("var")
 
 Effect(ph) ==
-  CASE ph.rule \in {"if", "case", "beginU", "beginR", "beginW", "do", "def", "vec"} -> Append(open, ph.rule)
+  CASE ph.rule \in {"if", "case", "beginU", "beginR", "beginW", "do", "def", "vec", "meta"} -> Append(open, ph.rule)
     [] ph.rule = "of"    -> Append(open, "of")
     [] ph.rule = "else"  -> [open EXCEPT ![Len(open)] = "else"]
     [] ph.rule = "while" -> [open EXCEPT ![Len(open)] = "while"]
-    [] ph.rule \in {"then", "endof", "endcase", "until", "repeat", "loop", "enddef", "endvec"} -> Front(open)
+    [] ph.rule \in {"then", "endof", "endcase", "until", "repeat", "loop", "enddef", "endvec", "endmeta"} -> Front(open)
     [] OTHER -> open
 
 Init == toks = <<>> /\ open = <<>> /\ n = 0 /\ done = FALSE
@@ -149,7 +155,7 @@ Init == toks = <<>> /\ open = <<>> /\ n = 0 /\ done = FALSE
 Gen == /\ ~done /\ n < Budget
        /\ \E i \in 1..Len(Alphabet) :
             /\ Allowed(Alphabet[i])
-            /\ Len(open) + (IF Alphabet[i].rule \in {"if", "case", "beginU", "beginR", "beginW", "do", "def", "of", "vec"} THEN 1 ELSE 0) <= Budget - n
+            /\ Len(open) + (IF Alphabet[i].rule \in {"if", "case", "beginU", "beginR", "beginW", "do", "def", "of", "vec", "meta"} THEN 1 ELSE 0) <= Budget - n
             /\ toks' = toks \o Alphabet[i].toks
             /\ open' = Effect(Alphabet[i])
        /\ n' = n + 1 /\ done' = FALSE
